@@ -17,7 +17,8 @@ def allSK : List SK :=
   [.contains, .perm, .attrib, .attribParen, .dataStmt, .endUnit, .endUnitSub, .endUnitFun, .endBlock,
    .endAssociate, .modproc, .blockdata, .block, .associate, .module, .submodule, .program, .subroutine,
    .subroutineBare, .function, .typedFunction, .type, .interface, .interfaceAnon, .absInterface,
-   .absGeneric, .enum, .variable, .variableParen, .use, .callParen, .callBare, .other]
+   .absGeneric, .enum, .variable, .variableParen, .use, .callParen, .callBare, .other,
+   .namelist, .common, .format, .arithGoto]
 
 def skOf (n : Str) : SK := (allSK.find? (fun k => skName k == n)).getD .other
 
@@ -47,6 +48,8 @@ def srcOf : List Str → Str × Src
     else (name, .stmts (stmtsOf rest))
   | [name] => (name, .stmts [])
   | [] => ([], .stmts [])
+
+def natStr (n : Nat) : Str := (toString n).toList
 
 def showNames (ns : List NameKey) : Str := commaJoin (ns.map (fun k => k.1 ++ '/' :: k.2))
 
@@ -79,6 +82,19 @@ def dispatchC20 : List Str → Option (List Str)
       | d :: f :: r :: rest =>
         let files := (splitBar rest []).filter (fun l => !l.isEmpty)
         some (showState (loadProject (cfgOf d f r) (files.map srcOf)) (projectNames (cfgOf d f r) (files.map srcOf)))
+      | _ => some ["bad-request".toList]
+    else if cmd == "c20.rxlist".toList then
+      -- one field per pattern: name=loops,loops that can be re-entered after a failure,of those not functional
+      some ("ok".toList :: Gen.patterns.map (fun p =>
+        p.1 ++ '=' :: commaJoin [natStr (Rx.allLoops p.2).length, natStr (Rx.loopsCF p.2 true).length,
+                                 natStr (Rx.badLoops p.2).length]))
+    else if cmd == "c20.rxmatch".toList then
+      -- pattern index, subject  ->  does `pattern.match(subject)` succeed
+      match args with
+      | [i, s] =>
+        match Gen.patterns[natOf i]? with
+        | some p => some ["ok".toList, (if Rx.matchesAt0 p.2 s then ['1'] else ['0'])]
+        | none => some ["bad-request".toList]
       | _ => some ["bad-request".toList]
     else none
   | [] => none
